@@ -8,7 +8,10 @@ EXTENDS AdminOps, Json, TLC
 CONSTANTS MaxCmds, MaxItems,
           SetupMode,    \* "empty": start from the empty history; "typical": one well-formed command first;
                         \* "chdel": a two-destination consistentHashing route of which one destination was deleted
-          CmdMode       \* "all" | "typical" | "api" (deletes) | "mods" (modify/delete/view) | "none"
+                        \* "routed": one well-formed route (destinations with and without pickle=true, grafanaNet)
+          CmdMode,      \* "all" | "typical" | "api" (deletes) | "mods" (modify/delete/view) | "none"
+                        \* "names": the rewriters / aggregations that produce degenerate metric names
+          ItemMode      \* "all" | "rule" (only traffic the rules of the history match)
 
 VARIABLES cmds, items, base
 gvars == <<cmds, items, base>>
@@ -16,11 +19,13 @@ gvars == <<cmds, items, base>>
 Pool == CASE CmdMode = "all" -> Commands [] CmdMode = "typical" -> Typical
           [] CmdMode = "api" -> ApiCmds \cup DelRouteCmds
           [] CmdMode = "mods" -> ModDestCmds \cup ModRouteCmds \cup DelRouteCmds \cup ApiCmds \cup ViewCmds
+          [] CmdMode = "names" -> NameCmds
           [] OTHER -> {}
 
 GInit == /\ items = <<>>
          /\ \/ SetupMode = "empty" /\ cmds = <<>> /\ base = 0
             \/ SetupMode = "typical" /\ base = 1 /\ \E s \in Typical : cmds = <<s>>
+            \/ SetupMode = "routed" /\ base = 1 /\ \E s \in SinkRoutes : cmds = <<s>>
             \/ /\ SetupMode = "chdel" /\ base = 2
                /\ \E sp \in BOOLEAN :
                      cmds = <<Cmd("addRoute", "cmd", "consistentHashing", "k1", 2, "none", "typical", sp),
@@ -30,7 +35,7 @@ AddCmd  == /\ items = <<>> /\ Len(cmds) < base + MaxCmds
            /\ \E c \in Pool : cmds' = Append(cmds, c)
            /\ UNCHANGED <<items, base>>
 AddItem == /\ Len(cmds) = base + MaxCmds /\ Len(items) < MaxItems
-           /\ \E it \in Items : items' = Append(items, it)
+           /\ \E it \in (IF ItemMode = "rule" THEN RuleItems ELSE Items) : items' = Append(items, it)
            /\ UNCHANGED <<cmds, base>>
 GNext == AddCmd \/ AddItem
 GSpec == GInit /\ [][GNext]_gvars
